@@ -33,7 +33,8 @@ PROP = {
              "right key, without public key, by another account, with a signature of another key, garbage, wrong chain id, no signer info, no "
              "signature, wrong sequence; price submissions attributed to each validator with 8 authentication variants, replayed/skipped nonces, "
              "non-validator keys; UpdateParams as the gov module (router) and as ordinary accounts under 7 chain ids around the mainnet prefix. "
-             "Observed: result class, sha256 of every module store and of auth+bank before/after, gateway / owner list / nonce after. "
+             "SubmitTaskResult in both stages x own/foreign operator name; every entry point also with its rightful caller and a payload the business logic refuses; "
+             "coverage matrix cov:<ep>|<class>|<accepted/rejected> in the distribution. Observed: result class, sha256 of every module store and of auth+bank before/after, gateway / owner list / nonce after. "
              "distinct = distinct sha1 of the case; non-trivial = the call was accepted or a module store changed"),
     "explanation": ("Coq theorems about dispatch (guards transcribed from the code, repaired oracle branch) for ALL entry points x callers x payloads "
                     "x states and over arbitrary call sequences; tied to the code by running each generated call on the real application and "
